@@ -47,6 +47,8 @@ type poConfig struct {
 	// cut: functions at which reachability stops (they and everything only reachable through
 	// them stay outside the engine's scope)
 	cut func(fn *ssa.Function) bool
+	// extra: rule-specific obligations (see po.Engine.Extra)
+	extra func(fn *ssa.Function, in ssa.Instruction, lin func(ssa.Value) po.Lin, seqLen func(ssa.Value) po.Lin) []po.ExtraOb
 }
 
 // runPO runs engine B from the given roots and records every obligation in r.
@@ -64,6 +66,7 @@ func runPO(p *model.Prog, r *report.Result, cfg poConfig) (*po.Engine, int) {
 	for _, f := range cfg.roots {
 		roots[f] = true
 	}
+	e.Extra = cfg.extra
 	e.Run(roots)
 	obs := e.Obs
 	sort.SliceStable(obs, func(i, j int) bool {
